@@ -353,7 +353,13 @@ def run(ctx, pid, ngames, maxplies=24):
     games = games[:ngames]
     fixed = [('rnbqkbnr/pppppppp/8/8/8/8/PPPPPPPP/RNBQKBNR w KQkq - 0 1', ['e2e4', 'e7e5', 'g1f3', 'b8c6', 'f1c4', 'g8f6', 'e1g1', 'f8c5']),
              ('r3k2r/8/8/3pP3/8/8/8/R3K2R w KQkq d6 0 1', ['e5d6', 'e8c8', 'd6d7', 'c8b8', 'd7d8q']),
-             ('4k3/P7/8/8/8/8/7p/4K3 w - - 0 1', ['a7a8n', 'h2h1r', 'e1e2'])]
+             ('4k3/P7/8/8/8/8/7p/4K3 w - - 0 1', ['a7a8n', 'h2h1r', 'e1e2']),
+             # a game that is already long when it is set up: the full-move number puts the ply count at the capacity of the key history
+             ('8/8/8/4k3/8/8/4K3/7R w - - 10 400', ['h1h5', 'e5e6', 'h5h1', 'e6e5']),
+             ('8/8/8/4k3/8/8/4K3/7R b - - 10 399', ['e5e6', 'h1h5', 'e6e7', 'h5h1', 'e7e6']),
+             # a promotion that captures a rook on its home square takes the castling right with it
+             ('r3k2r/1P4P1/8/8/8/8/8/4K3 w kq - 0 1', ['b7a8q', 'e8e7', 'g7h8n']),
+             ('4k3/8/8/8/8/8/1p4p1/R3K2R b KQ - 0 1', ['g2h1r', 'e1e2', 'b2a1b'])]
     jobs = [(f, m, random.Random(rng.randrange(1 << 30))) for f, m in fixed + games]
     nrep = 0
     seen = 0
@@ -447,7 +453,11 @@ def judge_book(ctx, exe, drv, fen, moves, idx):
     path = os.path.join(d, f'glue_{os.getpid()}_{idx}.bin')
     with open(path, 'wb') as fh:
         fh.write(b''.join(recs_main) + b''.join(recs_decoy))     # same key non-contiguous, heavier record first
-    cmds = [f'setoption name Polyglot Book value {path}', 'setoption name Polyglot Sample value best', 'ucinewgame',
+    # the two options in either order (a GUI sends them in the order of its dialog): the policy must hold whichever comes first
+    opts = [f'setoption name Polyglot Book value {path}', 'setoption name Polyglot Sample value best']
+    if idx % 2 == 1:
+        opts.reverse()
+    cmds = opts + ['ucinewgame',
             f'position fen {fen}', 'go depth 1',
             f'moves {moves[0]}', 'go depth 1']
     exp = [(4, moves[0]), (6, moves[1])]
